@@ -3,11 +3,15 @@
    theorems of Props/C18.lean are stated with) evaluated on the implementation's traces.
    Input lines (see the harness headers):
      C <chunk> <plan> <in> <scans> <trace>
+     Q <rscript> <wplan> <plan> <scans> <trace>      (qmail-clean with read()/write() faults)
      S <l|r> <plan> <script> <trace>
+     A <l|r> <plan> <oom> <script> <trace>           (spawn.c with failing stralloc_append calls in getcmd())
      D <c> <jobs> <slots> <plan> <chunk> <stream> <trace>                                       -/
 import Drv.Util
 import Nq.Spec.TrustBoundary
 import Nq.Spec.ReportRef
+import Nq.Spec.CleanIOSpec
+import Nq.Spec.SpawnOOMSpec
 
 open Nq Drv
 
@@ -115,6 +119,81 @@ def handle (st : Stats) (chunk planh inh scansS trace : String) : IO Stats := do
     return st
   | _, _, _ => disagree st s!"unparsable C line"
 end CleanD
+
+/-! ### qmail-clean with read/write faults -/
+namespace CleanIOD
+open Nq.Clean Nq.CleanIO
+
+def parseRd (tok : String) : Option Rd :=
+  match tok.toList with
+  | ['i'] => some .eintr
+  | ['x'] => some .err
+  | 'd' :: h => if h.isEmpty then some (.data []) else (unhex (String.ofList h)).map .data
+  | _ => none
+
+def parseRds (s : String) : Option (List Rd) :=
+  if s == "-" then some [] else
+  (s.splitOn ".").foldr (fun t acc => match parseRd t, acc with
+    | some x, some l => some (x :: l)
+    | _, _ => none) (some [])
+
+def renderIO : List IOEv → List String
+  | [] => []
+  | .ev e :: r => CleanD.render [e] ++ renderIO r
+  | .wintr b :: r => ("i" ++ hex [b]) :: renderIO r
+  | .wfail b :: r => ("f" ++ hex [b]) :: renderIO r
+
+def parseIOEv (tok : String) : Option (List IOEv) :=
+  match tok.toList with
+  | 'i' :: h => (unhex (String.ofList h)).map (fun bs => bs.map .wintr)
+  | 'f' :: h => (unhex (String.ofList h)).map (fun bs => bs.map .wfail)
+  | _ => (CleanD.parseEv tok).map (fun l => l.map .ev)
+
+def parseIOTrace (toks : List String) : Option (List IOEv) :=
+  toks.foldr (fun t acc => match parseIOEv t, acc with
+    | some e, some l => some (e ++ l)
+    | _, _ => none) (some [])
+
+def handle (st : Stats) (rsS wplanh planh scansS trace : String) : IO Stats := do
+  match parseRds rsS, planOf wplanh, planOf planh, CleanD.parseScans scansS with
+  | some rds, some wplan, some plan, some scans =>
+    let inp := arrived rds
+    let h := hashBytes (inp ++ (rsS ++ " " ++ wplanh ++ " " ++ scansS).toUTF8.toList)
+    let fresh := !st.seen.contains h
+    let reqs := splitReqs [] inp
+    let nontriv := reqs.any (fun q => q.length ≥ 7)
+    let mut st := { st with cases := st.cases + 1, seen := st.seen.insert h,
+                            nontrivial := st.nontrivial + (if fresh && nontriv then 1 else 0) }
+    st := st.bump "cleanio"
+    if rds.any (· == .eintr) then st := st.bump "cleanio_read_eintr"
+    if rds.any (· == .err) then st := st.bump "cleanio_read_error_in_script"
+    if (rds.filter (fun r => match r with | .data (_ :: _) => true | _ => false)).length ≥ 2 then st := st.bump "cleanio_short_reads"
+    if (inp.reverse.takeWhile (· != 0)).length > 0 then st := st.bump "cleanio_request_cut_by_end_of_input"
+    let code := runCode rds plan scans wplan
+    let model := ",".intercalate (renderIO (runT rds plan scans wplan) ++ [if code == 0 then "e0" else "e1100"])
+    let desc := s!"kind=cleanio rs={rsS} wplan={wplanh} plan={planh} scans={scansS}"
+    if model != trace then
+      st ← disagree st s!"{desc} impl={trace} model={model}"
+    -- oracle on the implementation's trace
+    let toks := trace.splitOn ","
+    match parseIOTrace toks.dropLast, toks.getLast? with
+    | some tr, some last =>
+      let icode := if last == "e0" then 0 else if last == "e1100" then 100 else 999
+      if !(Nq.Spec.TB.cleanIOOK reqs scans tr icode) then
+        st ← oracleFail st s!"{desc} impl={trace} requests={reqs.length} (a request acted on twice or half / events after a failed write / wrong exit code)"
+      else
+        if tr.any (fun e => match e with | .wintr _ => true | _ => false) then st := st.bump "cleanio_write_eintr_retried"
+        if icode == 100 then
+          st := st.bump "cleanio_write_failed_exit100"
+          if Nq.Spec.TB.delivered tr > 0 then st := st.bump "cleanio_write_failed_after_answers"
+          if (erase tr).getLast?.any (fun e => match e with | .unlink _ => true | _ => false) then st := st.bump "cleanio_answer_lost_after_unlinks"
+      if fresh && st.samples < 3 && icode == 100 && Nq.Spec.TB.delivered tr > 0 then
+        IO.println s!"SAMPLE {desc} trace={trace}"
+        st := { st with samples := st.samples + 1 }
+    | _, _ => st ← oracleFail st s!"{desc} impl={trace} (unparsable trace)"
+    return st
+  | _, _, _, _ => disagree st s!"unparsable Q line"
+end CleanIOD
 
 /-! ### spawn -/
 namespace SpawnD
@@ -270,6 +349,51 @@ def handle (st : Stats) (kindS planh scriptS rawTrace : String) : IO Stats := do
     | none => st ← oracleFail st s!"kind=spawn{kindS} in={scriptS} plan={planh} impl={trace} (unparsable trace / output not a sequence of reports)"
     return st
   | _, _ => disagree st s!"unparsable S line"
+
+/-- spawn.c with failing allocations while a command is read -/
+def parseOom (s : String) : Option (List Nat) :=
+  if s == "-" then some [] else
+  (s.splitOn ".").foldr (fun t acc => match t.toNat?, acc with
+    | some x, some l => some (x :: l)
+    | _, _ => none) (some [])
+
+def handleA (st : Stats) (kindS planh oomS scriptS rawTrace : String) : IO Stats := do
+  let kind := if kindS == "l" then Kind.l else Kind.r
+  let rawToks := rawTrace.splitOn ","
+  let trace := ",".intercalate (stripLife rawToks)
+  match planOf planh, parseScript scriptS, parseOom oomS with
+  | some plan, some script, some oom =>
+    let input := inputOf script
+    let cmds := Nq.Spec.TB.parseCmds (input.length + 1) input
+    let flags := Nq.Spec.TB.abortFlags oom 0 cmds
+    let h := hashBytes (scriptS.toUTF8.toList ++ planh.toUTF8.toList ++ kindS.toUTF8.toList ++ oomS.toUTF8.toList)
+    let fresh := !st.seen.contains h
+    let mut st := { st with cases := st.cases + 1, seen := st.seen.insert h,
+                            nontrivial := st.nontrivial + (if fresh && !cmds.isEmpty then 1 else 0) }
+    st := st.bump ("spawn_oom_" ++ kindS)
+    if flags.any id then st := st.bump "spawn_oom_command_aborted"
+    if flags.any id && flags.any (!·) then st := st.bump "spawn_oom_aborted_and_normal_commands"
+    let desc := s!"kind=spawnoom{kindS} in={scriptS} plan={planh} oom={oomS}"
+    let model := ",".intercalate (render [] (Nq.SpawnOOM.runA kind oom plan script).2 ++
+      [s!"q{Nq.SpawnOOM.runConsumedA kind oom plan script}", "e0"])
+    if model != trace then
+      st ← disagree st s!"{desc} impl={trace} model={model}"
+    match parseTrace (trace.splitOn ",") with
+    | some (evs, normal) =>
+      if !normal then
+        st ← oracleFail st s!"{desc} impl={trace} (abnormal end: the program was aborted while running this case)"
+      else if !(Nq.Spec.TB.oomOK oom cmds plan evs) then
+        st ← oracleFail st s!"{desc} impl={trace} commands={cmds.length} aborted={(flags.filter id).length} (a command whose parse was aborted started a delivery / was not answered by exactly one out-of-memory report, or the open/spawn/report discipline is broken)"
+      else if (match lifeOf rawToks with | some l => !(Nq.Spec.TB.lifeOK l) | none => true) then
+        st ← oracleFail st s!"{desc} impl={rawTrace} (report() before wait())"
+      else
+        if evs.any (fun e => match e with | .report _ b => b == Nq.Gen.SpawnTexts.E_NOMEM0 | _ => false) then st := st.bump "spawn_oom_reported"
+      if fresh && st.samples < 5 && flags.any id && flags.any (!·) && trace.length < 500 then
+        IO.println s!"SAMPLE {desc} trace={trace}"
+        st := { st with samples := st.samples + 1 }
+    | none => st ← oracleFail st s!"{desc} impl={trace} (unparsable trace / output not a sequence of reports)"
+    return st
+  | _, _, _ => disagree st s!"unparsable A line"
 end SpawnD
 
 /-! ### qmail-send report reader -/
@@ -394,6 +518,10 @@ def handle (st : Stats) (line : String) : IO Stats := do
   | ["C", chunk, plan, inh, scans, trace] => CleanD.handle st chunk plan inh scans trace
   | ["S", kind, plan, script, trace] => SpawnD.handle st kind plan script trace
   | ["D", c, jobs, slots, plan, chunk, inh, trace] => SendD.handle st c jobs slots plan chunk inh trace
+  | ["A", kind, plan, oom, script, trace] => SpawnD.handleA st kind plan oom script trace
+  | ["A", kind, plan, oom, script] => oracleFail st s!"kind=spawnoom{kind} in={script} plan={plan} oom={oom} impl=(no output: the program crashed on this input)"
+  | ["Q", rs, wplan, plan, scans, trace] => CleanIOD.handle st rs wplan plan scans trace
+  | ["Q", rs, wplan, plan, scans] => oracleFail st s!"kind=cleanio rs={rs} wplan={wplan} plan={plan} scans={scans} impl=(no output: the program crashed on this input)"
   | ["C", chunk, plan, inh, scans] => oracleFail st s!"kind=clean in={inh} chunk={chunk} plan={plan} scans={scans} impl=(no output: the program crashed on this input)"
   | ["S", kind, plan, script] => oracleFail st s!"kind=spawn{kind} in={script} plan={plan} impl=(no output: the program crashed on this input)"
   | ["D", c, jobs, slots, plan, chunk, inh] => oracleFail st s!"kind=send in={inh} c={c} jobs={jobs} slots={slots} plan={plan} chunk={chunk} impl=(no output: the program crashed on this input)"
